@@ -67,7 +67,7 @@ CHECKS = {
     "C07": (
         "exploration",
         "Hypothesis stateful machine per registration configuration, Mem + SQLite in lock-step with a key -> REGISTERED-invocation model",
-        "Sequences of submissions (argument values with repeats, positional/keyword/defaults-omitted spellings) interleaved with transitions that move invocations out of REGISTERED, for DISABLED/TASK/ARGUMENTS/KEYS x key subsets x raise option: a duplicate returns the existing invocation and creates nothing (invocation and queue counts), otherwise exactly one new invocation; at most one REGISTERED per key after every step; KEYS+raise rejects differing non-key arguments without changing anything.",
+        "Sequences of submissions (argument values with repeats, positional/keyword/defaults-omitted spellings) interleaved with transitions that move invocations out of REGISTERED and with auto-purge of finished ones, for DISABLED/TASK/ARGUMENTS/KEYS x key subsets x raise option (incl. key_arguments declared under TASK/ARGUMENTS): a duplicate returns the existing invocation and creates nothing (invocation and queue counts), otherwise exactly one new invocation; at most one REGISTERED per key after every step; KEYS+raise rejects differing non-key arguments without changing anything.",
         "Trusted: registration keys computed by the harness; raise option generated only with KEYS mode.",
         "DESIGN.md 3 C07, A.5",
     ),
